@@ -590,6 +590,12 @@ func c17PatternPool(r string) (fixed []c17Cfg, pool []string) {
 	fixed = []c17Cfg{
 		{"empty", nil},
 		{"empty-non-nil", []string{}},
+		// Positive control for the instance-derived files: the user filters
+		// directory of any data directory below the scratch directory, and
+		// the directory of the configuration file.
+		{"instance-userfilters-allowed", []string{filepath.Dir(r) + "/scratch/*/data/userfilters/*", filepath.Dir(r) + "/scratch/*/x.txt"}},
+		{"instance-userfilters-near-miss", []string{filepath.Dir(r) + "/scratch/*/data/userfilter/*", filepath.Dir(r) + "/scratch/*/data/*/y.txt",
+			filepath.Dir(r) + "/scratch/*/data/userfilters"}},
 		{"exact", []string{p("lists/a.txt")}},
 		{"dir-star", []string{p("lists/*")}},
 		{"star-suffix", []string{p("lists/*.txt")}},
@@ -1401,7 +1407,7 @@ func (e *c17Env) refreshBatch(rng *rand.Rand, cfg c17Cfg, locs []c17Loc, whites 
 	// Locations derived from this very data directory.
 	locs = append([]c17Loc(nil), locs...)
 	whites = append([]bool(nil), whites...)
-	for i, l := range e.extraLocs(rng, dataDir, 2) {
+	for i, l := range e.extraLocs(rng, dataDir, verifkit.Pick(1, 2)) {
 		locs = append(locs, l)
 		whites = append(whites, i%3 == 0)
 	}
@@ -1834,10 +1840,17 @@ func c17Run(t *testing.T, rep *verifkit.Report, strace bool) {
 
 	// The name of the root has a fixed length: generated spellings depend on
 	// string lengths, and the same seed must give the same cases.
+	// The tree and the data directories live in the check's scratch directory
+	// (tmpfs) when there is one: the product creates two temporary files per
+	// refreshed list, which dominates the run time on a disk.
+	base := os.Getenv("VERIF_SCRATCH")
+	if st, serr := os.Stat(base); base == "" || serr != nil || !st.IsDir() {
+		base = os.TempDir()
+	}
 	var root string
 	var err error
 	for k := 0; k < 1000; k++ {
-		root = filepath.Join(os.TempDir(), fmt.Sprintf("TestVerifC17-%010d", (os.Getpid()*1000+k)%10000000000))
+		root = filepath.Join(base, fmt.Sprintf("TestVerifC17-%010d", (os.Getpid()*1000+k)%10000000000))
 		if err = os.Mkdir(root, 0o755); err == nil {
 			break
 		}
@@ -1862,7 +1875,7 @@ func c17Run(t *testing.T, rep *verifkit.Report, strace bool) {
 		t.Fatal(err)
 	}
 	t.Chdir(tr.cwd)
-	tmpCanary := filepath.Join(filepath.Dir(root), "TestVerifC17-tmpcanary-"+strings.TrimPrefix(filepath.Base(root), "TestVerifC17-")+".txt")
+	tmpCanary := filepath.Join(os.TempDir(), "TestVerifC17-tmpcanary-"+strings.TrimPrefix(filepath.Base(root), "TestVerifC17-")+".txt")
 	t.Cleanup(func() { _ = os.Remove(tmpCanary); _ = os.Remove(tmpCanary + ".c17tmp") })
 	tp, stop := c17ControlServer()
 	defer stop()
@@ -1872,7 +1885,7 @@ func c17Run(t *testing.T, rep *verifkit.Report, strace bool) {
 
 	fixed, pool := c17PatternPool(tr.root)
 	nRandomCfg := verifkit.Pick(16, 110)
-	nRandomLoc := verifkit.Pick(110, 240)
+	nRandomLoc := verifkit.Pick(90, 240)
 	cfgs := append([]c17Cfg(nil), fixed...)
 	for i := 0; i < nRandomCfg; i++ {
 		n := 1 + rng.Intn(4)
